@@ -466,11 +466,16 @@ pub fn gen_node(rng: &mut Rng, thorough: bool) -> Vec<u64> {
     // half of the cases also move the connections and the dial answers
     let service = rng.chance(50);
     let mut conn = [1u8; NPEERS];
-    for _ in 0..nops {
+    // a few cases carry one bulk command: tens of thousands of entries, so that the shipped
+    // message limit is what splits the real send_request / send_response
+    let bulk_at = if rng.below(1000) < 8 { Some(rng.below(nops)) } else { None };
+    for opi in 0..nops {
         let p = rng.below(NPEERS as u64) as usize;
         let r = rng.below(100);
         // steer towards meaningful operations, keep a few misplaced ones
-        let op = if service && rng.chance(28) {
+        let op = if bulk_at == Some(opi) {
+            13
+        } else if service && rng.chance(28) {
             if conn[p] == 0 {
                 rng.pick(&[9u64, 9, 11, 11, 12, 12, 12, 8])
             } else {
@@ -555,11 +560,32 @@ pub fn gen_node(rng: &mut Rng, thorough: bool) -> Vec<u64> {
                     conn[p] = 2;
                 },
             11 => {}
+            13 => {
+                let kind = rng.below(3);
+                let m = u64::MAX;
+                let shape = match rng.below(4) {
+                    0 => (1u64, 0x55u64, 0x12u64, (0..32u8).collect::<Vec<u8>>()),
+                    1 => (0, 0x70, 0x12, (0..32u8).map(|k| k ^ 0x5a).collect()),
+                    2 => (1, 0x55, 0x12, vec![7u8; 64]),
+                    _ => (1, m, m, vec![9u8; 64]),
+                };
+                let n = match rng.below(10) {
+                    0 => rng.pick(&[0u64, 1, 2, 3, 700]),
+                    1..=3 => rng.range(40_000, 60_000),
+                    _ => rng.range(60_000, 80_000),
+                };
+                c.extend([kind, n]);
+                put_cidspec(shape.0, shape.1, shape.2, &shape.3, &mut c);
+                c.push(match kind {
+                    2 => rng.pick(&[4u64, 4, 20, 27, 28, 30, 100]),
+                    _ => rng.below(2),
+                });
+            }
             _ => c.push(rng.below(4)),
         }
         // bookkeeping of the generator only (a rough copy of the loop's state)
         match op {
-            4 | 5 =>
+            4 | 5 | 13 =>
                 if !out[p] {
                     if pend[p] == 0 {
                         opening[p] = true;
@@ -824,41 +850,70 @@ fn enc_written(node: &Node, p: usize, bytes: &[u8], out: &mut Vec<u64>) -> Optio
         let nwl = m.wantlist.as_ref().map(|w| w.entries.len()).unwrap_or(0);
         if nwl > 0 || (m.payload.is_empty() && m.block_presences.is_empty()) {
             let w = m.wantlist.as_ref()?;
-            e.extend([1, len, w.entries.len() as u64]);
-            for x in w.entries.iter() {
-                put_bytes(&x.block, &mut e);
-                e.extend([
-                    x.priority as u32 as u64,
-                    x.cancel as u64,
-                    x.want_type as u32 as u64,
-                    x.send_dont_have as u64,
-                ]);
-            }
+            e.extend([1, len]);
+            let entries: Vec<Vec<u64>> = w
+                .entries
+                .iter()
+                .map(|x| {
+                    let mut v = Vec::new();
+                    put_bytes(&x.block, &mut v);
+                    v.extend([
+                        x.priority as u32 as u64,
+                        x.cancel as u64,
+                        x.want_type as u32 as u64,
+                        x.send_dont_have as u64,
+                    ]);
+                    v
+                })
+                .collect();
+            put_runs(entries, &mut e);
             e.push(w.full as u64);
             if !m.payload.is_empty() || !m.block_presences.is_empty() {
                 e.push(666_666_666);
             }
         } else if !m.block_presences.is_empty() {
-            e.extend([2, len, m.block_presences.len() as u64]);
-            for x in m.block_presences.iter() {
-                put_bytes(&x.cid, &mut e);
-                e.push(x.r#type as u32 as u64);
-            }
+            e.extend([2, len]);
+            let entries: Vec<Vec<u64>> = m
+                .block_presences
+                .iter()
+                .map(|x| {
+                    let mut v = Vec::new();
+                    put_bytes(&x.cid, &mut v);
+                    v.push(x.r#type as u32 as u64);
+                    v
+                })
+                .collect();
+            put_runs(entries, &mut e);
             if !m.payload.is_empty() || m.wantlist.is_none() {
                 e.push(666_666_666);
             }
         } else {
-            e.extend([3, len, m.payload.len() as u64]);
-            for x in m.payload.iter() {
-                // which block handed to send_response is this?
-                let found = node.sent_blocks.iter().rev().find(|(q, _, cid, data)| {
-                    *q == p && data == &x.data && prefix_of(cid) == x.prefix
-                });
-                e.push(found.map(|f| f.1).unwrap_or(777_777_777));
-                put_bytes(&x.prefix, &mut e);
-                e.push(x.data.len() as u64);
-                e.push(found.is_some() as u64);
-            }
+            e.extend([3, len]);
+            // which block handed to send_response is this? (the same question for a run of equal
+            // entries is asked once)
+            let mut last: Option<(&Vec<u8>, &Vec<u8>, Option<u64>)> = None;
+            let entries: Vec<Vec<u64>> = m
+                .payload
+                .iter()
+                .map(|x| {
+                    let found = match last {
+                        Some((pf, d, f)) if pf == &x.prefix && d == &x.data => f,
+                        _ => node
+                            .sent_blocks
+                            .iter()
+                            .rev()
+                            .find(|(q, _, cid, data)| *q == p && data == &x.data && prefix_of(cid) == x.prefix)
+                            .map(|f| f.1),
+                    };
+                    last = Some((&x.prefix, &x.data, found));
+                    let mut v = vec![found.unwrap_or(777_777_777)];
+                    put_bytes(&x.prefix, &mut v);
+                    v.push(x.data.len() as u64);
+                    v.push(found.is_some() as u64);
+                    v
+                })
+                .collect();
+            put_runs(entries, &mut e);
             if m.wantlist.is_none() {
                 e.push(666_666_666);
             }
@@ -871,6 +926,46 @@ fn enc_written(node: &Node, p: usize, bytes: &[u8], out: &mut Vec<u64>) -> Optio
     }
     out.push(partial);
     Some(())
+}
+
+/// Run-length encoding of equal neighbours: count-prefixed list of `count entry`.
+fn put_runs(entries: Vec<Vec<u64>>, out: &mut Vec<u64>) {
+    let mut runs: Vec<(u64, Vec<u64>)> = Vec::new();
+    for e in entries {
+        match runs.last_mut() {
+            Some((k, cur)) if *cur == e => *k += 1,
+            _ => runs.push((1, e)),
+        }
+    }
+    out.push(runs.len() as u64);
+    for (k, e) in runs {
+        out.push(k);
+        out.extend(e);
+    }
+}
+
+/// The runs of a bulk command: (run index, length), lengths 1, 2, 3, ... adding up to n.
+fn bulk_runs(n: u64) -> Vec<(u64, u64)> {
+    let mut v = Vec::new();
+    let (mut j, mut left) = (0u64, n);
+    while left > 0 {
+        let len = std::cmp::min(j + 1, left);
+        v.push((j, len));
+        left -= len;
+        j += 1;
+    }
+    v
+}
+
+fn bulk_cid(base: &Cid, j: u64) -> Option<Cid> {
+    let mut dg = base.hash().digest().to_vec();
+    if dg.len() < 2 {
+        return None;
+    }
+    dg[0] = (j / 256 % 256) as u8;
+    dg[1] = (j % 256) as u8;
+    let mh = Multihash::wrap(base.hash().code(), &dg).ok()?;
+    Cid::new(base.version(), base.codec(), mh).ok()
 }
 
 /// (version, codec, hash code) of prefix bytes, read leniently (wrapping, no minimality check).
@@ -1135,6 +1230,58 @@ async fn run_node_async(c: &[u64]) -> Option<Vec<u64>> {
                     return None;
                 }
                 node.manager.verif_force_peer(peer, tag, peer_addr(p));
+            }
+            13 => {
+                let (kind, n) = (rd.n()?, rd.n()?);
+                let base = rd.cid()?;
+                let x = rd.n()?;
+                if n > 80_000 || base.hash().digest().len() < 2 {
+                    return None;
+                }
+                match kind {
+                    0 => {
+                        let w = match x {
+                            0 => WantType::Block,
+                            1 => WantType::Have,
+                            _ => return None,
+                        };
+                        let mut cids = Vec::with_capacity(n as usize);
+                        for (j, len) in bulk_runs(n) {
+                            let cid = bulk_cid(&base, j)?;
+                            cids.extend(std::iter::repeat((cid, w)).take(len as usize));
+                        }
+                        node.handle.send_request(peer, cids).await;
+                    }
+                    1 => {
+                        let presence = match x {
+                            0 => BlockPresenceType::Have,
+                            1 => BlockPresenceType::DontHave,
+                            _ => return None,
+                        };
+                        let mut entries = Vec::with_capacity(n as usize);
+                        for (j, len) in bulk_runs(n) {
+                            let cid = bulk_cid(&base, j)?;
+                            entries.extend(std::iter::repeat(ResponseType::Presence { cid, presence }).take(len as usize));
+                        }
+                        node.handle.send_response(peer, entries).await;
+                    }
+                    2 => {
+                        if !(4..=(8 << 20)).contains(&x) {
+                            return None;
+                        }
+                        let mut entries = Vec::with_capacity(n as usize);
+                        for (j, len) in bulk_runs(n) {
+                            let cid = bulk_cid(&base, j)?;
+                            let data = payload((opi as u64) << 16 | (j & 0xffff), x);
+                            node.sent_blocks.push((p, j, cid, data.clone()));
+                            entries.extend(
+                                std::iter::repeat(ResponseType::Block { cid, block: data }).take(len as usize),
+                            );
+                        }
+                        node.handle.send_response(peer, entries).await;
+                    }
+                    _ => return None,
+                }
             }
             _ => return None,
         }
